@@ -254,6 +254,16 @@ Definition m_resp_raise (r : resp) : list obs * stop :=
    observable; the setters of the public tunables (comms_..., timeout_...) log the new value at DEBUG. *)
 Definition m_assign (cred : bool) (v : msg) : list obs := if cred then [] else [OInfo v].
 
+(* scrapli/factory.py — `Scrapli(platform=..., **kwargs)` / `AsyncScrapli(...)`: the factory picks the driver class and
+   says so in ONE record (INFO, logger scrapli.factory): for a core platform the class only; for a scrapli_community
+   platform the class and the PLATFORM's own arguments [plat] (defaults merged with the variant's: privilege levels,
+   on_open / on_close, failed_when_contains, ...).  Nothing of the configuration [c] the user handed to the factory
+   (host, user name, the three credentials, everything else) enters that record; the merge of the platform's arguments
+   with the user's happens after it.  A platform that cannot be loaded (scrapli_community / the platform module missing,
+   no SCRAPLI_PLATFORM) is an exception whose message names the platform only: outside the model (oracle-only). *)
+Definition m_construct (community : bool) (plat : msg) (c : conf) : list obs :=
+  [OInfo (if community then plat else [])].
+
 Inductive op :=
 | OpLoginTelnet (user pw : msg)
 | OpLoginSsh (handler : bool) (pw ph : msg)
@@ -266,7 +276,8 @@ Inductive op :=
 | OpRespRepr (r : resp)
 | OpRespStr (r : resp)
 | OpRespRaise (r : resp)
-| OpAssign (cred : bool) (v : msg).
+| OpAssign (cred : bool) (v : msg)
+| OpConstruct (community : bool) (plat : msg) (c : conf).
 
 Definition run_op (fixd : bool) (o : op) (h : list rev) : list obs * stop * list rev :=
   match o with
@@ -282,6 +293,7 @@ Definition run_op (fixd : bool) (o : op) (h : list rev) : list obs * stop * list
   | OpRespStr r => (m_resp_str r, SOk, h)
   | OpRespRaise r => let '(t, s) := m_resp_raise r in (t, s, h)
   | OpAssign cred v => (m_assign cred v, SOk, h)
+  | OpConstruct community plat c => (m_construct community plat c, SOk, h)
   end.
 
 (* a session: operations in order over one history; the first failure ends it *)
@@ -316,6 +328,8 @@ Definition op_wf (o : op) : bool :=
   | OpRespStr _ | OpRespRaise _ => true
   (* a credential may be any secret; what is assigned to a public tunable holds no secret *)
   | OpAssign cred v => cred || pub v
+  (* what a (community) platform definition supplies holds no secret; the user's configuration may hold any *)
+  | OpConstruct _ plat _ => pub plat
   end.
 (* the first input of an interaction is typed at the command prompt: it is not the hidden one *)
 Definition op_wf_first (o : op) : bool :=
